@@ -52,3 +52,14 @@ Theorem C10_plateau : forall M K es s s', PLInv s -> readers s = [] -> accept_al
   run_ok (plateau_hyp M K) s es -> np s' <= N.max (np s) (2 + 2 * M + K).
 Proof. exact plateau. Qed.
 Print Assumptions C10_plateau.
+
+(* ---- the engine model: nothing freed is ever lost. In every state a history reaches, the ids recorded on the free-list page are
+   EXACTLY the pages below the high-water mark that no reachable node and not the free-list run itself occupies -- so every page a
+   transaction frees is available to a later transaction's allocator (which takes the first fitting run: C10_alloc_sound /
+   _complete above), and the file can only grow when no recorded run fits. ---- *)
+From Jamm Require Engine EngineRefines EngineOwnDefs EngineAllocInv EngineNoLeakDefs EngineNoLeak.
+Theorem C10_engine_no_page_is_lost : forall st : Engine.db, EngineNoLeak.db_exact_rec st ->
+  forall x : N, In x (Engine.d_flids st) <->
+    ((2 <= x)%N /\ (x < Engine.d_np st)%N) /\ ~ In x (EngineRefines.live_of st (EngineOwnDefs.Rof st)).
+Proof. exact EngineNoLeak.flids_exact. Qed.
+Print Assumptions C10_engine_no_page_is_lost.
